@@ -49,14 +49,14 @@ let v6opt_item r = match r with
   | V6OptUnknown (t, l, d) -> Printf.sprintf "unk:%s:%s:%s" (sz t) (sz l) (show_bytes d)
 let v6opt_items l = "[" ^ String.concat "," (List.map (show_o v6opt_item) l) ^ "]"
 (* one option from an emit op's fields; [sfx] distinguishes the options of a list (hbh) *)
-let v6opt_repr kv =
-  match get kv "kind" with
+let v6opt_repr_sfx kv sfx =
+  match get kv ("kind" ^ sfx) with
   | "pad1" -> V6OptPad1
-  | "padn" -> V6OptPadN (geti kv "len")
-  | "ra" -> V6OptRouterAlert (geti kv "val")
-  | _ -> V6OptUnknown (geti kv "type", geti kv "len", getb kv "data")
+  | "padn" -> V6OptPadN (geti kv ("len" ^ sfx))
+  | "ra" -> V6OptRouterAlert (geti kv ("val" ^ sfx))
+  | _ -> V6OptUnknown (geti kv ("type" ^ sfx), geti kv ("len" ^ sfx), getb kv ("data" ^ sfx))
 let v6opt_emit_op kv =
-  let res = v6opt_emit (v6opt_repr kv) (getb kv "buf") in
+  let res = v6opt_emit (v6opt_repr_sfx kv "") (getb kv "buf") in
   Printf.sprintf "ret %s | %s" (ob res)
     (match res with Ok bs -> show_o v6opt_show (v6opt_parse bs) | _ -> "-")
 let v6opt_parse_op kv =
@@ -74,9 +74,36 @@ let v6opt_parse_op kv =
     (show_o v6opt_show (v6opt_parse bs))
     (v6opt_items (v6opt_iter bs))
 
+(* ---------------- Hop-by-Hop options header ----------------
+   emit ops: `n=<k> kind0=.. kind1=..` (explicit option list) or `mld=1 pads=<hex>`
+   (Repr::mldv2_router_alert() followed by push_padn_option(p) for every octet p of pads) *)
+let v6hbh_show r = Printf.sprintf "Ok n=%d opts=%s" (List.length r)
+  ("[" ^ String.concat "," (List.map v6opt_item r) ^ "]")
+let v6hbh_repr kv : v6hbh_repr outcome =
+  if getbool kv "mld" then
+    List.fold_left (fun acc p -> match acc with Ok r -> v6hbh_push_padn_option r p | x -> x)
+      v6hbh_mldv2_router_alert (getb kv "pads")
+  else
+    let n = int_of_string (get kv "n") in
+    Ok (List.init n (fun i -> v6opt_repr_sfx kv (string_of_int i)))
+let v6hbh_emit_op kv =
+  match v6hbh_repr kv with
+  | Ok r ->
+      let res = v6hbh_emit r (getb kv "buf") in
+      Printf.sprintf "ret %s | %s" (ob res)
+        (match res with Ok bs -> show_o v6hbh_show (v6hbh_parse bs) | _ -> "-")
+  | _ -> "ret PANIC | -"
+let v6hbh_parse_op kv =
+  let bs = getb kv "bytes" in
+  let c = v6hbh_check_len bs in
+  Printf.sprintf "chk %s%s parse %s" (chk c)
+    (if is_ok c then Printf.sprintf " acc options=%s" (ob (v6hbh_options bs)) else "")
+    (show_o v6hbh_show (v6hbh_parse bs))
+
 (* ---------------- dispatch ---------------- *)
 let dispatch : (string * ((string * string) list -> string) * ((string * string) list -> string)) list = [
   ("v6opt", v6opt_emit_op, v6opt_parse_op);
+  ("v6hbh", v6hbh_emit_op, v6hbh_parse_op);
 ]
 
 let () =
